@@ -275,6 +275,9 @@ impl Property for C03 {
                         t.push(Cmd::new(0, 1, rng.usize(33, 90), RArea::Nil));
                         t.push(Cmd::new(1, 1, rng.usize(1, 2), RArea::Nil));
                     }
+                    for _ in 0..rng.usize(1, 3) {
+                        t.push(Cmd::new(0, 1, rng.usize(5, 9), RArea::Nil));
+                    }
                     t.push(Cmd::new(0, 1, rng.usize(0, 2), RArea::Nil));
                     t.push(Cmd::new(0, 1, 3, RArea::Nil));
                     t.push(g(RArea::Leaf(c)));
@@ -284,6 +287,11 @@ impl Property for C03 {
                     t.push(Cmd::new(5, rng.usize(1, 2), 3, RArea::Nil));
                     // jumps iff the character just read equals the count (U+0003): once, for the first character
                     t.push(g(RArea::Node(1, Box::new(RArea::Leaf(*rng.pick(&[a, b, b, c]))), Box::new(RArea::Nil))));
+                    // what is left on the stack becomes output, so that a wrong landing block shows
+                    for _ in 0..rng.usize(2, 4) {
+                        t.push(Cmd::new(3, 1, rng.usize(1, 2), RArea::Nil));
+                        t.push(Cmd::new(1, 1, rng.usize(4, 7), RArea::Nil));
+                    }
                     for _ in 0..rng.usize(1, 3) {
                         t.push(Cmd::new(0, 1, rng.usize(48, 90), RArea::Nil));
                         t.push(Cmd::new(1, 1, 1, RArea::Nil));
